@@ -132,8 +132,21 @@ def _non_assertable() -> st.SearchStrategy:
 
 def strategy(ctx) -> st.SearchStrategy:
     value = V.choice(_leaf(), _leaf(), V.floats(), _enums(), _collections(2), _collections(3), _collections(5), _non_assertable())
-    return st.tuples(value, st.sampled_from(["direct", "direct", "field", "field", "field", "pair-field"])).map(
+    single = st.tuples(value, st.sampled_from(["direct", "direct", "field", "field", "field", "pair-field"])).map(
         lambda t: {"v": t[0], "binding": t[1]})
+    # two-statement histories: observe, mutate a container of the same live object in place, observe again
+    small = V.choice(st.integers(0, 3).map(lambda v: {"k": "int", "v": v}), V.strs(2), V.bools(), V.nones(), _enums())
+    inner = V.choice(st.lists(small, max_size=3).map(lambda xs: {"k": "list", "items": xs}),
+                     st.lists(st.integers(0, 3).map(lambda v: {"k": "int", "v": v}), max_size=3).map(lambda xs: {"k": "set", "items": xs}),
+                     st.lists(st.tuples(V.strs(2), small).map(list), max_size=2).map(lambda xs: {"k": "dict", "items": xs}))
+    elem = V.choice(inner, inner, small)
+    nested = V.choice(st.lists(elem, min_size=1, max_size=3).map(lambda xs: {"k": "list", "items": xs}),
+                      st.lists(elem, min_size=1, max_size=3).map(lambda xs: {"k": "tuple", "items": xs}),
+                      st.lists(st.tuples(V.strs(2), elem).map(list), min_size=1, max_size=3).map(lambda xs: {"k": "dict", "items": xs}),
+                      _collections(3))
+    history = st.tuples(nested, st.sampled_from(["field", "field", "pair-field"]), st.sampled_from(["inner", "inner", "inner", "outer"]),
+                        st.integers(4, 9)).map(lambda t: {"v": t[0], "binding": t[1], "mut": {"level": t[2], "elem": t[3]}})
+    return V.choice(single, single, single, history)
 
 
 # ------------------------------------------------------------------------------------------- oracle
@@ -143,6 +156,42 @@ def _bind(recipe: dict[str, Any], binding: str) -> Any:
     if binding == "field":
         return V.materialise({"k": "sut", "what": "holder", "payload": recipe})
     return V.materialise({"k": "sut", "what": "pair", "first": {"k": "int", "v": 1}, "second": recipe})
+
+
+def _payload(bound: Any, binding: str) -> Any:
+    return bound if binding == "direct" else (bound.payload if binding == "field" else bound.second)
+
+
+def _grow(container: Any, elem: int) -> bool:
+    if type(container) is list:
+        container.append(elem)
+    elif type(container) is set:
+        container.add(elem)
+    elif type(container) is dict:
+        container[f"k{elem}"] = elem
+    else:
+        return False
+    return True
+
+
+def _mutate_in_place(payload: Any, mut: dict[str, Any]) -> bool:
+    """What a later statement of the test may do to the live object: grow one of its containers in place.
+
+    "outer": the field's own container; "inner": the first mutable container nested in it (depth-first, deterministic).
+    """
+    if mut["level"] == "outer":
+        return _grow(payload, mut["elem"])
+
+    def children(x: Any) -> list:
+        return list(x.values()) if type(x) is dict else (list(x) if type(x) in (list, tuple) else [])
+
+    stack = children(payload)[::-1]
+    while stack:
+        x = stack.pop()
+        if _grow(x, mut["elem"]):
+            return True
+        stack.extend(children(x)[::-1])
+    return False
 
 
 def _export_namespace(module: Any, alias: str) -> dict[str, Any]:
@@ -245,11 +294,33 @@ def evaluate(case: dict[str, Any]) -> Outcome:
         except Exception as exc:  # noqa: BLE001
             out.fail(f"observe|{vclass}|raises:{exc_sig(exc)}", f"case={case!r}\n{exc_detail(exc)}")
             return out
-        assertions = [a for a in observer.get_trace().get_assertions(0) if a.source == "var_0" or a.source.startswith("var_0.")]
+        mut = case.get("mut")
+        mutated = False
+        if mut:
+            # a later statement mutates the live object in place; the observer looks again (var_0 is on its watch list)
+            mutated = _mutate_in_place(_payload(observed, binding), mut)
+            namespace["var_1"] = 0
+            try:
+                observer._handle("var_1", namespace, 1)
+            except Exception as exc:  # noqa: BLE001
+                out.fail(f"observe|{vclass}|raises:{exc_sig(exc)}", f"case={case!r}\n{exc_detail(exc)}")
+                return out
+            out.labels.append("history:mutated" if mutated else "history:nothing-to-mutate")
+
+        def state_at(position: int) -> Any:
+            """A fresh reconstruction of var_0 as it was when the assertions of ``position`` were observed."""
+            fresh = _bind(recipe, binding)
+            if position == 1 and mutated:
+                _mutate_in_place(_payload(fresh, binding), mut)
+            return fresh
+
+        # read only now: an expected value that aliases the live object has silently followed the mutation
+        assertions = [(pos, a) for pos in ((0, 1) if mut else (0,)) for a in observer.get_trace().get_assertions(pos)
+                      if a.source == "var_0" or a.source.startswith("var_0.")]
         if not assertions:
             out.labels.append("no-assertion")
         executed = 0
-        for assertion in assertions:
+        for position, assertion in assertions:
             kind = type(assertion).__name__
             leaf = (_live_class(assertion.object) if isinstance(assertion, ass.ObjectAssertion) else
                     _live_class(assertion.value) if isinstance(assertion, ass.FloatAssertion) else
@@ -267,16 +338,18 @@ def evaluate(case: dict[str, Any]) -> Outcome:
                 out.fail(f"compile|{kind}|{leaf}|invalid-syntax", f"case={case!r} assertion={assertion!r} code={code!r}: {exc}")
                 continue
             ns = _export_namespace(module, alias)
-            ns["var_0"] = _bind(recipe, binding)  # a fresh copy, as a re-run of the exported test would produce
+            ns["var_0"] = state_at(position)  # a fresh copy, as a re-run of the exported test would produce at that position
             try:
                 exec(compiled, ns)  # noqa: S102
                 executed += 1
             except AssertionError:
-                out.fail(f"execute|{kind}|{leaf}|assertion-fails", f"case={case!r} code={code!r} fails on a fresh copy of the value")
+                when = "" if not mutated else ("|recorded-before-later-mutation" if position == 0 else "|after-mutation")
+                out.fail(f"execute|{kind}|{leaf}|assertion-fails{when}",
+                         f"case={case!r} position={position} code={code!r} fails on a fresh copy of the value at that position")
             except Exception as exc:  # noqa: BLE001
                 out.fail(f"execute|{kind}|{leaf}|raises:{type(exc).__name__}", f"case={case!r} code={code!r}: {exc!r}")
         out.nontrivial = executed > 0
-        out.key = [recipe, binding]
+        out.key = [recipe, binding, mut]
     finally:
         config.configuration.module_name = saved
     return out
